@@ -3,6 +3,7 @@ package p14
 import (
 	"fmt"
 	"os"
+	"reflect"
 	"sort"
 	"strings"
 
@@ -387,7 +388,7 @@ func gStep(t *rapid.T, chk, class string, last bool, prevModifier bool) v1beta1.
 
 func gCase(t *rapid.T, chk string) (Case, []string) {
 	var c Case
-	c.Class = pick(t, "class", "nginx", "nginx", "aliyun-alb", "aliyun-alb", "higress", "higress", "mse", "mse", "mse", "")
+	c.Class = pick(t, "class", "nginx", "mse", "aliyun-alb", "higress", "mse", "", "mse", "aliyun-alb", "higress", "nginx")
 	c.ScriptSrc = pick(t, "script-src", "file", "file", "file", "configmap", "configmap-otherkey")
 	c.StableSvc = pick(t, "stable-svc", "web", "echo")
 	c.CanarySvc = c.StableSvc + "-canary"
@@ -425,38 +426,51 @@ func stepClasses(steps []v1beta1.TrafficRoutingStrategy) []string {
 	}
 	for i := range steps {
 		k := stepKind(&steps[i])
-		add("kind:" + k)
+		add("kind:" + base(k))
+		for _, f := range []string{"cookie", "hexact", "hregex", "qexact", "qregex", "modifier"} {
+			if strings.Contains(k, f) {
+				add("has:" + f)
+			}
+		}
+		if steps[i].Traffic != nil && len(steps[i].Matches) > 0 {
+			add("has:weight-and-matches")
+		}
+		if len(steps[i].Matches) > 1 {
+			add("has:two-matches")
+		}
 		if steps[i].Traffic != nil && *steps[i].Traffic == "0%" {
-			add("weight-zero")
+			add("has:weight-zero")
 		}
 		if i > 0 {
 			p := stepKind(&steps[i-1])
-			if p != k {
-				add("tr:" + coarse(p) + "->" + coarse(k))
+			if base(p) != base(k) {
+				add("tr:" + base(p) + "->" + base(k))
+			} else if p != k {
+				add("tr:same-family-different-kind")
+			}
+			pm, km := steps[i-1].RequestHeaderModifier, steps[i].RequestHeaderModifier
+			switch {
+			case pm != nil && km == nil:
+				add("tr-mod:on->off")
+			case pm == nil && km != nil:
+				add("tr-mod:off->on")
+			case pm != nil && km != nil && !reflect.DeepEqual(pm, km):
+				add("tr-mod:changed")
 			}
 		}
 	}
 	return cls
 }
 
-// coarse maps a step kind to a transition class small enough for a readable histogram.
-func coarse(k string) string {
-	q := strings.Contains(k, "qexact") || strings.Contains(k, "qregex")
-	h := strings.Contains(k, "hexact") || strings.Contains(k, "hregex") || strings.Contains(k, "cookie")
-	var out []string
-	if strings.HasPrefix(k, "weight") {
-		out = append(out, "weight")
+// base maps a step kind to its dominant annotation family: query > header > weight.
+func base(k string) string {
+	switch {
+	case strings.Contains(k, "qexact") || strings.Contains(k, "qregex"):
+		return "query"
+	case strings.Contains(k, "hexact") || strings.Contains(k, "hregex") || strings.Contains(k, "cookie"):
+		return "header"
 	}
-	if h {
-		out = append(out, "header")
-	}
-	if q {
-		out = append(out, "query")
-	}
-	if strings.Contains(k, "modifier") {
-		out = append(out, "modifier")
-	}
-	return strings.Join(out, "+")
+	return "weight"
 }
 
 // nonTrivial is the NT rule of DESIGN C14: a sequence with two different step kinds.
